@@ -1,4 +1,5 @@
 import Spdc.Real.HomLemmas
+import Spdc.Real.ComposeGridLemmas
 /-!
 # C09 — the HOM coincidence rate is a bounded, correctly normalised interference sum
 
@@ -171,5 +172,85 @@ example : homRate (⟨⟨1, 2, 2⟩, ⟨1, 2, 2⟩⟩ : Steps2D ℝ)
     intro k hk
     have : k = 0 ∨ k = 1 ∨ k = 2 ∨ k = 3 := by omega
     rcases this with h | h | h | h <;> subst h <;> simp [at', swapIdx])).1
+
+/-! ## composed model (grid level)
+
+The theorems above are about the HOM layer with the amplitude arrays (or an arbitrary amplitude
+function `J`) as inputs.  Below they are lifted to the COMPOSED model (`Spdc/Model/ComposeGrid.lean`):
+the only inputs are a primitive setup, the Simpson division count, the range and the delays; the
+spectrum object (`JointSpectrum::new` through the composed `try_as_optimum`), both amplitude arrays and
+the dip delay (group velocities from the composed indices) are computed from them through all layers.
+The hypotheses say that the calls involved return (`= .ok …`): a spectrum object exists, the
+joint-spectrum view of the setup exists (optimum idler, walk-off derivative, `k_eff`), the division
+count passes the assertions of the Simpson rule. -/
+
+/-- composed model, T1+T2+T5 lifted: for every primitive setup, every square range with identical
+signal and idler axes on which the composed spectrum is not identically zero, and every delay, the
+rate returned by the composed `SPDC::hom_rate_series` lies in `[0, 1]`. -/
+theorem compose_hom_rate_mem_unit (S : Compose.Setup ℝ) (divs : Nat) (js : Compose.JS ℝ)
+    (hjs : Compose.jointSpectrum S divs = .ok js) (J : PM.JSetup ℝ) (hJ : Compose.jsetup S = .ok J)
+    (q : List (ℝ × ℝ) × ℝ) (hq : Compose.simpsonRule divs = .ok q)
+    (n : ℕ) (ax : Steps ℝ) (hn : ax.n = n)
+    (hN : 0 < jsiNorm (sampled (PM.jsa J q.1 q.2) ⟨ax, ax⟩)) (τ : ℝ) :
+    ∃ r, Compose.homRateSeries S divs (.freq ⟨ax, ax⟩) [τ] = .ok [r] ∧ 0 ≤ r ∧ r ≤ 1 := by
+  obtain ⟨hS, hd, -⟩ := Compose.jointSpectrum_ok hjs
+  obtain ⟨r, hr, h0, h1⟩ := (setup_level_mem_unit (PM.jsa J q.1 q.2) n ax hn hN 0).2 τ
+  refine ⟨r, ?_, h0, h1⟩
+  unfold Compose.homRateSeries
+  rw [hjs]
+  simp only [Outcome.bind, Compose.Ranges.toFrequencySpace]
+  rw [Compose.homArrays_eq (hS ▸ hJ) (hd ▸ hq)]
+  exact hr
+
+/-- composed model: the composed `SPDC::hom_visibility` returns the composed dip delay
+`hom_time_delay` and a visibility in `[−1, 1]` (same hypotheses; the dip delay must evaluate, i.e. the
+two group-velocity derivatives are finite). -/
+theorem compose_hom_visibility_mem (S : Compose.Setup ℝ) (divs : Nat) (js : Compose.JS ℝ)
+    (hjs : Compose.jointSpectrum S divs = .ok js) (J : PM.JSetup ℝ) (hJ : Compose.jsetup S = .ok J)
+    (q : List (ℝ × ℝ) × ℝ) (hq : Compose.simpsonRule divs = .ok q)
+    (δt : ℝ) (hδ : Compose.homTimeDelay S = .ok δt)
+    (n : ℕ) (ax : Steps ℝ) (hn : ax.n = n)
+    (hN : 0 < jsiNorm (sampled (PM.jsa J q.1 q.2) ⟨ax, ax⟩)) :
+    ∃ v, Compose.homVisibility S divs (.freq ⟨ax, ax⟩) = .ok (δt, v) ∧ -1 ≤ v ∧ v ≤ 1 := by
+  obtain ⟨hS, hd, -⟩ := Compose.jointSpectrum_ok hjs
+  obtain ⟨v, hv, h0, h1⟩ := (setup_level_mem_unit (PM.jsa J q.1 q.2) n ax hn hN δt).1
+  refine ⟨v, ?_, h0, h1⟩
+  unfold Compose.homVisibility
+  rw [hjs]
+  simp only [Outcome.bind, Compose.Ranges.toFrequencySpace]
+  rw [Compose.homArrays_eq (hS ▸ hJ) (hd ▸ hq), hδ]
+  dsimp only
+  have hv' : Hom.homVisibility ⟨ax, ax⟩ (sampled (PM.jsa J q.1 q.2) ⟨ax, ax⟩)
+      (sampledSwapped (PM.jsa J q.1 q.2) ⟨ax, ax⟩) δt = .ok v := hv
+  rw [hv']
+  rfl
+
+/-- composed model, T5 lifted: the composed series over ANY range (frequency, wavelength or
+sum/difference space) is the layer's `homRateSeriesSetup` of the total composed amplitude function on
+the frequency space the range converts to — each entry is an individually computed rate. -/
+theorem compose_hom_series_eq (S : Compose.Setup ℝ) (divs : Nat) (js : Compose.JS ℝ)
+    (hjs : Compose.jointSpectrum S divs = .ok js) (J : PM.JSetup ℝ) (hJ : Compose.jsetup S = .ok J)
+    (q : List (ℝ × ℝ) × ℝ) (hq : Compose.simpsonRule divs = .ok q) (R : Compose.Ranges ℝ) (τs : List ℝ) :
+    Compose.homRateSeries S divs R τs = homRateSeriesSetup (PM.jsa J q.1 q.2) R.toFrequencySpace τs := by
+  obtain ⟨hS, hd, -⟩ := Compose.jointSpectrum_ok hjs
+  unfold Compose.homRateSeries
+  rw [hjs]
+  simp only [Outcome.bind]
+  rw [Compose.homArrays_eq (hS ▸ hJ) (hd ▸ hq)]
+  rfl
+
+/-- non-vacuity of the structural hypotheses: Simpson-50 passes the assertions (the rule exists), and
+a two-point axis is a square range with identical axes -/
+example : ∃ q, (Compose.simpsonRule 50 : Outcome (List (ℝ × ℝ) × ℝ)) = .ok q :=
+  ⟨_, rfl⟩
+
+example : (⟨1, 2, 2⟩ : Steps ℝ).n = 2 := rfl
+
+/-- non-vacuity of the outcome hypotheses (`hjs`, `hJ`, `hq`): for the concrete unpoled KTP setup
+`Compose.exGrid` (explicit idler, 775 → 1500 + 1603 nm) the spectrum object (Simpson-50), the
+joint-spectrum view and the Simpson rule all exist over ℝ (`Compose.grid_hypotheses_satisfiable`
+shows the same for every unpoled explicit-idler setup with `0 ≠ λ_p < λ_s`) -/
+example : ∃ js J q, Compose.jointSpectrum Compose.exGrid 50 = .ok js ∧ Compose.jsetup Compose.exGrid = .ok J ∧
+    (Compose.simpsonRule 50 : Outcome (List (ℝ × ℝ) × ℝ)) = .ok q := Compose.exGrid_available
 
 end Spdc.Props.C09
